@@ -62,7 +62,7 @@ class Spec:
             dl, dr = {1: 3, 2: None, 3: None}, {1: None, 2: None, 3: 1}
             opts = {i: [None] + [j for j in LIDS if j != i] for i in LIDS}
             self.adj_left = {i: opts[i][V.choice(f"adj.left.{i}", 3)] if (full or i in (1, 2)) else dl[i] for i in LIDS}
-            self.adj_right = {i: opts[i][V.choice(f"adj.right.{i}", 3)] if (full or i == 3) else dr[i] for i in LIDS}
+            self.adj_right = {i: opts[i][V.choice(f"adj.right.{i}", 3)] if (full or i in (2, 3)) else dr[i] for i in LIDS}
         else:
             self.adj_left = {1: 3, 2: None, 3: None}
             self.adj_right = {1: None, 2: None, 3: 1}
